@@ -18,7 +18,12 @@ FailedPoly(t) ==
     IF t.raised # "" THEN {"raised"} ELSE
     IF t.malformed THEN {"result_is_not_a_multilinear_polynomial_with_integer_coefficients"} ELSE
     LET got == {<<t.terms[i].a, SetOf(t.terms[i].C) \cup {t.root}, t.terms[i].c>> : i \in DOMAIN t.terms}
-        exp == CoefTable(EdgeSet(t.E), t.root)
+        ct == CoefTable(EdgeSet(t.E), t.root)
+        Z == SetOf(t.zero_u)   O == SetOf(t.one_u)          \* vertices whose u was the number 0 / the number 1
+        rows == {r \in ct : r[2] \cap Z = {}}
+        keys == {<<r[1], r[2] \ O>> : r \in rows}
+        exp == IF Z = {} /\ O = {} THEN ct
+               ELSE {x \in {<<k[1], k[2], ISumSet({r \in rows : r[1] = k[1] /\ r[2] \ O = k[2]}, LAMBDA r : r[3])>> : k \in keys} : x[3] # 0}
     IN IF got = exp THEN {} ELSE
        IF {<<r[1], r[2]>> : r \in got} # {<<r[1], r[2]>> : r \in exp} THEN {"polynomial_has_wrong_monomials"} ELSE {"polynomial_has_wrong_coefficients"}
 
